@@ -3,7 +3,7 @@ import re
 
 from ..cfg import Renderer, walk, show, branches, guards_of, flat_guards, matches_conj
 from ..facts import callee_names, short
-from ..util import view, crate_fns, root_name, field_writes, expr_calls, expr_vars, expr_fields
+from ..util import view, crate_fns, root_name, field_writes, expr_calls, expr_vars, expr_fields, loops
 from . import c06
 
 EXPLANATION = (
@@ -579,12 +579,72 @@ def _table_of(rws, universe):
     return tab
 
 
+def _closure_key(prog, name):
+    ck = [kk for kk in prog.ix if kk.endswith(str(name)) or str(name).endswith(kk)]
+    return ck[0] if ck else None
+
+
+def _guards_with_block(fv, target, brs):
+    """flat_guards, each with the block of the branch it comes from (to tell the guards inside a loop from those around it)."""
+    out = []
+    for br, labels in guards_of(fv, target, brs):
+        e, lab = br.expr, set(labels)
+        while isinstance(e, tuple) and e and e[0] == "un" and e[1] == "Not" and lab <= {"true", "false"}:
+            e = e[2]
+            lab = {"false" if l == "true" else "true" for l in lab}
+        out.append((e, lab, br.bi))
+    return out
+
+
+def _accepted_amount(prog, bodies):
+    """How the amount subtracted from route_stats.accepted is computed.  Returns a list of
+    ("closure", key, fv, bi) -- `iter().filter(closure).count()`, or ("loop", (fv, block, local), fv, bi) -- a counter incremented
+    by one inside a loop over the path list."""
+    out = []
+    for b in bodies:
+        fv = view(prog, b)
+        ws = field_writes(fv, "accepted")
+        if not ws:
+            continue
+        rend = Renderer(fv, depth=24, through_names=True)
+        plain = Renderer(fv, depth=6)
+        for bi, si, st in ws:
+            e = rend.rvalue(st["rv"], 24)
+            found = False
+            for x in walk(e):
+                if isinstance(x, tuple) and x and x[0] == "call" and x[1].endswith("Iterator::count"):
+                    for y in walk(x):
+                        if isinstance(y, tuple) and y and y[0] == "call" and y[1].endswith("Iterator::filter"):
+                            cl = [z[2] for a in y[2][1:] for z in walk(a) if isinstance(z, tuple) and z and z[0] == "agg" and str(z[1]).startswith("closure")]
+                            if cl and _closure_key(prog, cl[0]):
+                                out.append(("closure", _closure_key(prog, cl[0]), fv, bi))
+                                found = True
+            if found:
+                continue
+            # a counter: a named integer local mentioned by the write, incremented by a constant 1 inside a loop
+            names = set(expr_vars(e)) | set(expr_vars(plain.rvalue(st["rv"], 6)))
+            for l, n_ in fv.local_name.items():
+                if n_ not in names or l >= len(fv.f["locals"]) or fv.f["locals"][l] not in ("u64", "usize", "u32"):
+                    continue
+                for db, dsi, dst_ in fv.defs().get(l, []):
+                    if db not in fv.live or dsi == "t":
+                        continue
+                    de = plain.rvalue(dst_["rv"], 6)
+                    inc = [x for x in walk(de) if isinstance(x, tuple) and x and x[0] == "bin" and x[1] in ("Add", "AddWithOverflow", "AddUnchecked")
+                           and any(isinstance(o, tuple) and o and o[0] == "const" and o[1] == 1 for o in (x[2], x[3]))]
+                    if inc and any(db in body for h, body, backs in loops(fv)):
+                        out.append(("loop", (fv, db, l), fv, bi))
+    return out
+
+
 def check_bulk_accepted(prog, r):
     """drop_stale / drop_llgr_stale / drop_no_llgr purge a peer's paths with Vec::retain and subtract the number of purged
     *accepted* paths from route_stats.accepted.  `accepted` is maintained on the filtered flag alone (Table::insert / remove,
-    R15.5), so that number must be |{e : retain drops e and not e.is_filtered()}| -- the counting closure's truth table over the
-    entry's flags must equal (not retain-predicate) and not is_filtered."""
+    R15.5), so that number must be |{e : retain drops e and not e.is_filtered()}| -- the counting predicate's truth table over the
+    entry's flags must equal (not retain-predicate) and not is_filtered.  The count is read either as
+    `iter().filter(pred).count()` or as a counter incremented inside a loop over the path list (its guards are the predicate)."""
     from .. import predicates
+    import itertools
     n = 0
     for k in crate_fns(prog, "rustybgp_table"):
         ix = prog.ix[k]
@@ -593,40 +653,80 @@ def check_bulk_accepted(prog, r):
         bodies = list(prog.with_closures(k))
         if not any(field_writes(view(prog, b), "accepted") for b in bodies):
             continue
-        retains, counts = [], []
+        retains = []
         for b in bodies:
             fv = view(prog, b)
             rend = Renderer(fv, depth=6)
-            for bi, t in fv.calls(re.compile(r".*(Vec::<T, A>::retain|Iterator::filter)$")):
-                ga = t["f"].get("ga", "")
-                if "RibEntry" not in ga:
+            for bi, t in fv.calls(re.compile(r".*Vec::<T, A>::retain$")):
+                if "RibEntry" not in t["f"].get("ga", ""):
                     continue
                 cl = [x[2] for a in t["args"][1:] for x in walk(rend.operand(a, 6)) if isinstance(x, tuple) and x and x[0] == "agg" and str(x[1]).startswith("closure")]
-                if len(cl) != 1:
-                    continue
-                ck = [kk for kk in prog.ix if kk.endswith(str(cl[0])) or str(cl[0]).endswith(kk)]
-                if not ck:
-                    continue
-                (retains if t["f"]["name"].endswith("retain") else counts).append((ck[0], fv, bi))
+                if len(cl) == 1 and _closure_key(prog, cl[0]):
+                    retains.append((_closure_key(prog, cl[0]), fv, bi))
         if not retains:
             continue            # single-path mutators (insert / remove) are R15.5's
         n += 1
         r.analysed(ix["name"])
         where = short(ix["name"])
-        if len(retains) != 1 or len(counts) != 1:
-            r.unanalysable("%s: %d retain / %d filter closures over the path list (want 1 / 1)" % (where, len(retains), len(counts)), view(prog, k).loc())
+        amounts = _accepted_amount(prog, bodies)
+        if len(retains) != 1 or len(amounts) != 1:
+            r.unanalysable("%s: %d retain closure(s) over the path list / %d recognised computation(s) of the amount subtracted from `accepted` (want 1 / 1)" % (where, len(retains), len(amounts)), view(prog, k).loc())
             continue
         rr, rfv = predicates.rows(prog, retains[0][0], _entry_atom)
-        cr, cfv = predicates.rows(prog, counts[0][0], _entry_atom)
+        kind, what, cfv, cbi = amounts[0]
+        if kind == "closure":
+            cr, cfv = predicates.rows(prog, what, _entry_atom)
+        else:
+            lfv, lb, ll = what
+            cr = []
+            facts, unk = {}, []
+            lbrs = branches(lfv, Renderer(lfv, depth=16, through_names=True))
+            inner = min((body for h, body, backs in loops(lfv) if lb in body), key=len)
+            prend = Renderer(lfv, depth=16, through_names=True)
+            work = [(g, labels, bb) for g, labels, bb in _guards_with_block(lfv, lb, lbrs) if bb in inner]
+            seen_defs = set()
+            while work:
+                g, labels, bb = work.pop()
+                if g[0] == "discr" and any(c.endswith("Iterator::next") for c in expr_calls(g)):
+                    continue
+                a = _entry_atom(g, labels, lfv)
+                if a is not None:
+                    facts[a[0]] = a[1]
+                    continue
+                # a bool local computed by `x && y` (several definitions): on its true side the one non-constant definition
+                # was taken and evaluated to true -- its own guards and its expression join the conjunction
+                exp = None
+                if g[0] == "var" and set(labels) == {"true"}:
+                    ls = [l for l, n_ in lfv.local_name.items() if n_ == g[1]]
+                    ds = [(db, dsi, dst_) for l in ls for db, dsi, dst_ in lfv.defs().get(l, []) if db in lfv.live and db in inner]
+                    nonconst = [(db, dsi, dst_) for db, dsi, dst_ in ds if dsi == "t" or not (dst_["rv"]["r"] == "use" and "k" in dst_["rv"]["o"])]
+                    consts_false = all(dst_["rv"]["o"]["k"].get("v") == 0 for db, dsi, dst_ in ds if (db, dsi, dst_) not in nonconst)
+                    if len(nonconst) == 1 and consts_false and (nonconst[0][0], g[1]) not in seen_defs:
+                        db, dsi, dst_ = nonconst[0]
+                        seen_defs.add((db, g[1]))
+                        de = prend.call_expr(dst_, 16, db) if dsi == "t" else prend.rvalue(dst_["rv"], 16)
+                        exp = [(de, {"true"}, db)] + [(g2, l2, b2) for g2, l2, b2 in _guards_with_block(lfv, db, lbrs) if b2 in inner]
+                if exp is None:
+                    unk.append((show(g, 80), tuple(sorted(map(str, labels)))))
+                else:
+                    work += exp
+            # the guards are the conjunction under which the counter moves; every other valuation leaves it alone
+            cr.append((facts, True, unk))
+            cr.append(("else", False, []))
         if rr is None or cr is None:
             r.unanalysable("%s: predicate has too many paths" % where, view(prog, k).loc())
             continue
-        unk = sorted({u[0] for rws in (rr, cr) for f_, res_, us in rws for u in us})
+        unk = sorted({u[0] for rws in (rr, [x for x in cr if x[0] != "else"]) for f_, res_, us in rws for u in us})
         if unk or any(res_ is None for rws in (rr, cr) for f_, res_, us in rws):
             r.unanalysable("%s: condition over the entry not recognised: %s" % (where, unk[:2]), cfv.loc())
             continue
-        uni = sorted({a for rws in (rr, cr) for f_, res_, us in rws for a in f_} | {"is_filtered"})
-        tr, tc = _table_of(rr, uni), _table_of(cr, uni)
+        uni = sorted({a for rws in (rr, [x for x in cr if x[0] != "else"]) for f_, res_, us in rws for a in f_} | {"is_filtered"})
+        tr = _table_of(rr, uni)
+        if kind == "closure":
+            tc = _table_of(cr, uni)
+        else:
+            conj = cr[0][0]
+            tc = {vals: all(dict(zip(uni, vals))[a] == x for a, x in conj.items()) for vals in itertools.product([False, True], repeat=len(uni))}
         bad = None
         for vals, kept in tr.items():
             v = dict(zip(uni, vals))
@@ -638,7 +738,7 @@ def check_bulk_accepted(prog, r):
                 bad = ("mismatch", v, tc[vals])
                 break
         if bad is None:
-            r.ok("%s: counted for `accepted` = removed by retain and not filtered (atoms %s)" % (where, ",".join(uni)))
+            r.ok("%s: counted for `accepted` = removed by retain and not filtered (%s, atoms %s)" % (where, "filter/count" if kind == "closure" else "counter in a loop", ",".join(uni)))
         elif bad[0] == "undecided":
             r.unanalysable("%s: predicates not total over %s" % (where, uni), cfv.loc())
         else:
